@@ -93,6 +93,8 @@ class Marker(Module):
         ]
         self.underflow = Signal()
         self.comb += self.underflow.eq(pop & (level == 0))
+        self.at_head = Signal()     # the marked item is the next one to leave (independent of `pop`)
+        self.comb += self.at_head.eq(self.marked & ~self.done & (ahead == 0))
 
 
 def _bad_adder(top, bads):
@@ -247,6 +249,143 @@ def writer_bench(name, fifo_depth=2, buffered=False, aw=5, dw=8, bit=None):
     return b
 
 
+def axi_reader_bench(name, fifo_depth=2, buffered=False, aw=6, dw=16, bit=None):
+    """LiteDRAMDMAReader on a LiteDRAMAXIPort (the is_axi branch): AR/R are real handshakes, R waits for ready"""
+    from litedram.frontend.dma import LiteDRAMDMAReader
+    from litedram.frontend.axi import LiteDRAMAXIPort
+    port = LiteDRAMAXIPort(data_width=dw, address_width=aw, id_width=1)
+
+    class Top(Module):
+        pass
+    top = Top()
+    top.submodules.dut = dut = LiteDRAMDMAReader(port, fifo_depth=fifo_depth, fifo_buffered=buffered)
+    ar, r = port.ar, port.r
+    B = Signal(max=dw, name_override="BITSEL")
+    bit_ok = Signal()
+    top.comb += bit_ok.eq((B == bit) if bit is not None else 1)
+    stall = Signal(name_override="stub_cmd_stall")
+    go = Signal(name_override="stub_resp_go")
+    other = Signal(dw, name_override="stub_rdata_other")
+    inputs = {"sink_valid": dut.sink.valid, "sink_address": dut.sink.address, "sink_last": dut.sink.last,
+              "source_ready": dut.source.ready, "stub_cmd_stall": stall, "stub_resp_go": go, "stub_rdata_other": other}
+    sacc, beat, cacc, resp = Signal(), Signal(), Signal(), Signal()
+    top.comb += [sacc.eq(dut.sink.valid & dut.sink.ready), beat.eq(dut.source.valid & dut.source.ready), cacc.eq(ar.valid & ar.ready)]
+    DEPTH, MINLAT = 3, 2
+    m_mem = Marker(cacc, resp, depth_bits=3)
+    m_all = Marker(sacc, beat, depth_bits=6)
+    top.submodules += m_mem, m_all
+    inputs["mark"] = m_all.mark
+    top.comb += m_mem.mark.eq(m_all.mark)
+    ages = [Signal(max=MINLAT + 1) for _ in range(DEPTH)]
+    lvl = m_mem.level
+    hold = Signal()
+    top.comb += [ar.ready.eq((lvl != DEPTH) & ~stall), r.valid.eq((lvl != 0) & (ages[0] >= MINLAT) & (go | hold)), resp.eq(r.valid & r.ready)]
+    top.sync += hold.eq(r.valid & ~r.ready)
+    inc = lambda x: Mux(x >= MINLAT, x, x + 1)
+    for i in range(DEPTH):
+        nxt = ages[i + 1] if i + 1 < DEPTH else Constant(0, 1)
+        top.sync += [If(resp, ages[i].eq(inc(nxt)), If(cacc & (lvl == i + 1), ages[i].eq(1))
+                        ).Else(ages[i].eq(inc(ages[i])), If(cacc & (lvl == i), ages[i].eq(1)))]
+    tagbit = Signal()
+    top.comb += tagbit.eq(m_mem.at_head)
+    bits = [Mux(B == i, tagbit, other[i]) for i in range(dw)]
+    top.comb += [r.data.eq(Cat(*bits)), r.last.eq(1)]
+    c = monitors.StreamContract(dut.sink.valid, dut.sink.ready, [dut.sink.address, dut.sink.last])
+    cc = monitors.StreamContract(ar.valid, ar.ready, [ar.addr, ar.size, ar.len, ar.burst])
+    cr = monitors.StreamContract(r.valid, r.ready, [r.data])
+    top.submodules += c, cc, cr
+    bads = {}
+    bad = _bad_adder(top, bads)
+    got = Array([dut.source.data[i] for i in range(dw)])[B]
+    mlast = Signal()
+    top.sync += If(m_all.mark_now, mlast.eq(dut.sink.last))
+    bad("dma_changes_or_drops_unaccepted_command", ~cc.ok)
+    bad("output_word_without_accepted_address", m_all.underflow)
+    bad("marked_address_word_not_delivered_at_its_position_in_order", m_all.mine & (got != 1))
+    bad("word_of_marked_address_delivered_at_another_position", beat & ~m_all.mine & m_all.marked & (got == 1))
+    bad("end_of_stream_mark_not_on_the_matching_word", m_all.mine & (dut.source.last != mlast))
+    outstanding = Signal(max=fifo_depth + 8)
+    top.sync += outstanding.eq(outstanding + cacc - beat)
+    bad("reads_in_flight_plus_buffered_exceed_fifo_depth", outstanding > fifo_depth)
+    bad("address_accepted_without_matching_port_command", sacc != cacc)
+    bad("port_command_address_differs_from_sink_address", cacc & (ar.addr != dut.sink.address))
+    bad("axi_read_is_not_one_full_width_beat", ar.valid & ((ar.size != log2_int(dw // 8)) | (ar.len != 0)))
+    covers = {}
+    st = monitors.Sticky(~dut.source.ready & dut.source.valid)
+    top.submodules += st
+    cv = Signal()
+    top.comb += cv.eq(m_all.mine & st.out)
+    covers["marked_word_delivered_after_consumer_stall"] = cv
+    b = bmc.Bench(name, top, inputs, consts={"BITSEL": B},
+                  assumes={"sink_held_until_accepted": c.ok, "watched_bit": bit_ok, "axi_r_payload_held_until_taken": cr.ok},
+                  bads=bads, covers=covers, info=dict(fifo_depth=fifo_depth, buffered=buffered, bit=bit, port="AXI"))
+    b.watch = {"sink_v": dut.sink.valid, "sink_r": dut.sink.ready, "addr": dut.sink.address, "ar_v": ar.valid, "ar_r": ar.ready,
+               "rv": r.valid, "rr": r.ready, "rd": r.data, "src_v": dut.source.valid, "src_r": dut.source.ready, "src_d": dut.source.data,
+               "outst": outstanding}
+    return b
+
+
+def axi_writer_bench(name, fifo_depth=2, buffered=False, aw=6, dw=16, bit=None):
+    """LiteDRAMDMAWriter on a LiteDRAMAXIPort: AW and W are independent handshaked channels"""
+    from litedram.frontend.dma import LiteDRAMDMAWriter
+    from litedram.frontend.axi import LiteDRAMAXIPort
+    port = LiteDRAMAXIPort(data_width=dw, address_width=aw, id_width=1)
+
+    class Top(Module):
+        pass
+    top = Top()
+    top.submodules.dut = dut = LiteDRAMDMAWriter(port, fifo_depth=fifo_depth, fifo_buffered=buffered)
+    a, w = port.aw, port.w
+    B = Signal(max=dw, name_override="BITSEL")
+    bit_ok = Signal()
+    top.comb += bit_ok.eq((B == bit) if bit is not None else 1)
+    stall = Signal(name_override="stub_aw_stall")
+    wgo = Signal(name_override="stub_w_ready")
+    bv = Signal(name_override="stub_b_valid")
+    inputs = {"sink_valid": dut.sink.valid, "sink_address": dut.sink.address, "sink_data": dut.sink.data,
+              "stub_aw_stall": stall, "stub_w_ready": wgo, "stub_b_valid": bv}
+    sacc, cacc, wacc = Signal(), Signal(), Signal()
+    top.comb += [a.ready.eq(~stall), w.ready.eq(wgo), port.b.valid.eq(bv),
+                 sacc.eq(dut.sink.valid & dut.sink.ready), cacc.eq(a.valid & a.ready), wacc.eq(w.valid & w.ready)]
+    m = Marker(sacc, wacc, depth_bits=6)
+    top.submodules += m
+    inputs["mark"] = m.mark
+    c = monitors.StreamContract(dut.sink.valid, dut.sink.ready, [dut.sink.address, dut.sink.data])
+    cc = monitors.StreamContract(a.valid, a.ready, [a.addr, a.size, a.len, a.burst])
+    cw = monitors.StreamContract(w.valid, w.ready, [w.data, w.strb])
+    top.submodules += c, cc, cw
+    inbit = Array([dut.sink.data[i] for i in range(dw)])[B]
+    tag_ok = Signal()
+    top.comb += tag_ok.eq(~dut.sink.valid | (inbit == (m.mark & ~m.marked)))
+    markhold, pm, pv = Signal(), Signal(), Signal()
+    top.sync += [pm.eq(m.mark), pv.eq(dut.sink.valid & ~dut.sink.ready)]
+    top.comb += markhold.eq(~pv | (m.mark == pm))
+    bads = {}
+    bad = _bad_adder(top, bads)
+    got = Array([w.data[i] for i in range(dw)])[B]
+    bad("dma_changes_or_drops_unaccepted_command", ~cc.ok)
+    bad("dma_changes_or_drops_untaken_write_data", ~cw.ok)
+    bad("write_data_beat_without_accepted_pair", m.underflow)
+    bad("marked_pair_data_not_at_its_position_in_order", m.mine & (got != 1))
+    bad("data_of_marked_pair_written_at_another_position", wacc & ~m.mine & (got == 1))
+    bad("write_strobes_not_all_set", w.valid & (w.strb != 2**(dw // 8) - 1))
+    bad("pair_accepted_without_matching_port_command", sacc != cacc)
+    bad("port_command_address_differs_from_sink_address", cacc & (a.addr != dut.sink.address))
+    bad("axi_write_is_not_one_full_width_beat", a.valid & ((a.size != log2_int(dw // 8)) | (a.len != 0)))
+    bad("write_response_not_accepted", port.b.valid & ~port.b.ready)
+    covers = {}
+    cv = Signal()
+    top.comb += cv.eq(m.mine & (m.level >= 2))
+    covers["marked_data_written_with_other_pairs_queued"] = cv
+    b = bmc.Bench(name, top, inputs, consts={"BITSEL": B},
+                  assumes={"sink_held_until_accepted": c.ok, "watched_bit_tags_the_marked_beat": tag_ok, "mark_held_with_beat": markhold,
+                           "watched_bit": bit_ok},
+                  bads=bads, covers=covers, info=dict(fifo_depth=fifo_depth, buffered=buffered, port="AXI"))
+    b.watch = {"sink_v": dut.sink.valid, "sink_r": dut.sink.ready, "addr": dut.sink.address, "data": dut.sink.data,
+               "aw_v": a.valid, "aw_r": a.ready, "wv": w.valid, "wr": w.ready, "wd": w.data}
+    return b
+
+
 CONFIGS = {
     "reader_d2": (reader_bench, dict(fifo_depth=2), 18, 32, "qt"),
     "reader_d4_bit0": (reader_bench, dict(fifo_depth=4, bit=0), 17, 30, "qt"),
@@ -256,6 +395,10 @@ CONFIGS = {
     "reader_d4_buffered": (reader_bench, dict(fifo_depth=4, buffered=True), 0, 30, "t"),
     "writer_d2": (writer_bench, dict(fifo_depth=2), 20, 32, "qt"),
     "writer_d4_buffered": (writer_bench, dict(fifo_depth=4, buffered=True), 17, 32, "qt"),
+    "axi_reader_d2": (axi_reader_bench, dict(fifo_depth=2), 16, 28, "qt"),
+    "axi_writer_d2": (axi_writer_bench, dict(fifo_depth=2), 16, 28, "qt"),
+    "axi_reader_d4_buffered": (axi_reader_bench, dict(fifo_depth=4, buffered=True), 0, 28, "t"),
+    "axi_writer_d4_buffered": (axi_writer_bench, dict(fifo_depth=4, buffered=True), 0, 28, "t"),
     "reader_d16": (reader_bench, dict(fifo_depth=16), 0, 40, "t"),
     "reader_d3": (reader_bench, dict(fifo_depth=3), 0, 32, "t"),
     "writer_d16": (writer_bench, dict(fifo_depth=16), 0, 36, "t"),
@@ -268,7 +411,8 @@ def run(ctx):
     ctx.assume("stream producers hold valid/payload until accepted; source.ready, stub stalls and response delays (>= 2 cycles) free")
     ctx.assume("native-port stub: in order, <= 3 commands queued; one item (chosen by the solver) is followed by queue position; "
                "its data carry a 1 at a symbolic bit position, all other data bits are free (data independence: the DMA only moves words)")
-    ctx.assume("native ports only (the is_axi branch and the CSR front-ends add_csr() are not covered)")
+    ctx.assume("axi_* benches: LiteDRAMAXIPort with real AR/R and AW/W/B handshakes (R and W wait for ready; R payload held by the "
+               "slave); single-beat full-width accesses are required of the DMA.  The CSR front-ends add_csr() are not covered")
     for n, (fn, kw, kq, kt, tiers) in CONFIGS.items():
         if ctx.only and not ctx.only.search(n):
             continue
